@@ -170,3 +170,42 @@ def run_histories(root, tag, seed, n_hist, n_req):
             if sc: sc.stop()
             cl.stop(); shutil.rmtree(d, ignore_errors=True)
     return {'requests': reqs, 'distributed': remote, 'hits': hits, 'local_fallbacks': fallbacks, 'fails': fails, 'samples': samples}
+
+
+def run_burst(root, tag, rounds=1, clients=6):
+    """the first wave against a freshly started build server: `clients` concurrent distributed compiles of different sources (the
+    toolchain has never been unpacked by this server process), each compared with a direct compile; then the same wave again after a
+    build-server restart"""
+    import threading
+    fails = []; samples = []; reqs = remote = 0
+    for rd in range(rounds):
+        d = os.path.join(root, f'b{rd}'); shutil.rmtree(d, ignore_errors=True); w = os.path.join(d, 'w'); os.makedirs(w)
+        cl = Cluster(os.path.join(d, 'cluster'), f'{tag}b{rd}'); sc = None
+        try:
+            if not cl.start_scheduler() or not cl.start_server():
+                fails.append({'kind': 'cluster_did_not_start', 'detail': 'scheduler or build server did not come up', 'ops': []}); continue
+            sc = Sc(os.path.join(d, 'sc'), f'{tag}bc{rd}'); sc.env['SCCACHE_CONF'] = cl.client_conf(); sc.start()
+            for wave in range(2):
+                if wave == 1: cl.kill_server(); cl.start_server()          # a restarted build server has to unpack the toolchain again
+                srcs = []
+                for i in range(clients):
+                    n = f'w{wave}c{i}'; open(os.path.join(w, n + '.c'), 'w').write(f'int {n}(int x) {{ return x + {i * 7 + wave}; }}\n'); srcs.append(n)
+                jobs0 = len(cl.jobs_run()); res = {}
+                def one(n): res[n] = sc.compile(['/usr/bin/gcc', '-O1', '-c', n + '.c', '-o', n + '.o'], w, timeout=300)
+                ts = [threading.Thread(target=one, args=(n,)) for n in srcs]
+                for t in ts: t.start()
+                for t in ts: t.join()
+                jobs1 = len(cl.jobs_run()); remote += jobs1 - jobs0
+                bad = []
+                for n in srcs:
+                    got = (res[n].returncode, file_state(os.path.join(w, n + '.o')) and file_state(os.path.join(w, n + '.o'))[0])
+                    subprocess.run(['/usr/bin/gcc', '-O1', '-c', n + '.c', '-o', n + '.direct.o'], cwd=w)
+                    want = (0, file_state(os.path.join(w, n + '.direct.o'))[0]); reqs += 1
+                    if got != want: bad.append(f'{n}: rc={got[0]} object {"differs" if got[1] else "missing"} stderr {res[n].stderr.decode(errors="replace")[:100]!r}')
+                line = f'wave {wave} ({"fresh" if wave == 0 else "restarted"} build server): {clients} concurrent requests, {jobs1 - jobs0} jobs ran on the build server, {len(bad)} differ from the direct compile'
+                samples.append(line)
+                if bad: fails.append({'kind': 'dist_result_differs_from_local', 'detail': line + ': ' + '; '.join(bad[:3]), 'ops': [line] + bad})
+        finally:
+            if sc: sc.stop()
+            cl.stop(); shutil.rmtree(d, ignore_errors=True)
+    return {'requests': reqs, 'distributed': remote, 'fails': fails, 'samples': samples}
